@@ -1005,7 +1005,8 @@ class Vector():
 					vals.append(None)
 				else:
 					vals.append(x + y)
-			return Vector(vals, dtype=self._dtype, name=None, as_row=self._display_as_row)
+			# type the result by its values, as _elementwise_operation does
+			return Vector(vals, dtype=infer_dtype(vals), name=None, as_row=self._display_as_row)
 		
 		# Scalar + Vector
 		if not isinstance(other, Iterable) or isinstance(other, (str, bytes, bytearray)):
@@ -1015,7 +1016,8 @@ class Vector():
 					vals.append(None)
 				else:
 					vals.append(other + x)
-			return Vector(vals, dtype=self._dtype, name=None, as_row=self._display_as_row)
+			# type the result by its values, as _elementwise_operation does
+			return Vector(vals, dtype=infer_dtype(vals), name=None, as_row=self._display_as_row)
 		
 		# Iterable + Vector
 		if isinstance(other, Iterable) and not isinstance(other, (str, bytes, bytearray)):
@@ -1027,7 +1029,8 @@ class Vector():
 					vals.append(None)
 				else:
 					vals.append(x + y)
-			return Vector(vals, dtype=self._dtype, name=None, as_row=self._display_as_row)
+			# type the result by its values, as _elementwise_operation does
+			return Vector(vals, dtype=infer_dtype(vals), name=None, as_row=self._display_as_row)
 		
 		raise SerifTypeError(f"Unsupported operand type: {type(other).__name__}")
 
